@@ -27,6 +27,12 @@ CLAIMED = {
  "C08": ("exhaustive enumeration of all random-choice sequences (scripted generator) of bounded instances vs an exact reference outcome law; probability vectors checked at the generator interface",
          "For bounded instances of every archetype the scripted generator enumerates every choice sequence of the real generator; the probability of each producible molecule (sum over paths of the product of the probabilities handed to rng.choice) must equal, within 1e-9, the value computed from the notation by an independent enumerator; supports must be equal, the total must be 1, and every vector handed to rng.choice must be a probability vector. Exhaustive per instance (when the path cap is not hit), sampling over instances.",
          "Trusted: the reference law of gbsv/reflaw.py (DESIGN.md §0), RDKit canonical SMILES as molecule identity.", "DESIGN.md §2 C08"),
+ "C10": ("stateful / model-based testing (Hypothesis RuleBasedStateMachine) with a differential oracle against a pristine forked baseline and immutability invariants",
+         "Generated operation histories over several strings and several parsed instances per string (parse again, seeded generation, generation with / reseeding / advancing the global generator, printing, queries, reaction graph, atom graph, mirror); every seeded generation must equal the answer of a fork of a template process that imported the library and did nothing else; after every step every live object prints and reports generable exactly as at parse time; an explicit generator leaves the global one untouched.",
+         "Trusted: fork gives a history-free baseline; molecule identity = canonical SMILES + weight.", "DESIGN.md §2 C10"),
+ "C11": ("generated parameter points per family against closed-form reference laws: normalisation, interval coherence (own point probabilities and reference CDF), exact-binomial goodness of fit of draws with re-confirmation, text round-trip, negative list of unknown names",
+         "Parameter points from a grid and Hypothesis inside the documented region; per point the object's point probabilities must be non-negative and normalised, 12 generated intervals must equal both the sum/integral of its own point probabilities and the reference F(b)-F(a), N draws must be finite, in the support, follow the reference law (binned exact binomial, alpha 1e-10 Bonferroni, re-confirmed with an independent seed) and have the documented mean; printing and re-reading keeps parameters; 17 unknown or look-alike names must be rejected. Statistical, never a proof of equality.",
+         "Trusted: scipy closed-form laws chosen from the documentation; stated tolerances for the integer-sampled Schulz-Zimm density.", "DESIGN.md §2 C11"),
  "C15": ("breaking operators on generated valid instances with a must-be-rejected oracle (Hypothesis) + byte-level mutation and coverage-guided fuzzing (atheris/libFuzzer) under a deterministic step budget",
          "Generated-input search: 17 breaking operators, each producing an invalid string by construction, are applied at generated positions to valid well-posed molecules of every archetype; the broken string must end in an error at parse or at generate (non-generable for negative weights / missing distribution) - a produced molecule is the violation. Termination of the five constructors is explored with Hypothesis byte mutations of docs/tests strings and two atheris campaigns (seeded and empty corpus) under a line-event budget.",
          "Trusted: each operator's claim that its output is invalid (stated per operator in gbsv/checks/c15.py); termination is bounded liveness: 20000+2000*len line events inside gbigsmiles.", "DESIGN.md §2 C15"),
